@@ -84,6 +84,9 @@ func Call(f func()) (msg string, panicked bool) {
 	}
 }
 
+// ErrStr renders an error as a short ASCII string.
+func ErrStr(err error) string { return errStr(err) }
+
 func errStr(err error) string {
 	if err == nil {
 		return ""
